@@ -114,6 +114,18 @@ def build(seed, prop, idx, o=None):
         for j in [rows_[k_] for k_ in rng.permutation(len(rows_))[: int(rng.integers(1, 3))]] if rows_ else []:
             feed.loc[j, cols[int(rng.integers(0, len(cols)))]] = float("nan")
             status[feed.loc[j, "geographic_unit_fips"]] = status[feed.loc[j, "geographic_unit_fips"]] + "+null-cell"
+    if o.get("null_unused", bool(rng.random() < 0.08)) and estimator != "bootstrap":
+        # the feed carries more count columns than this run models; a null in a column the run does not use says
+        # nothing about the unit's requested counts
+        # (results_turnout is never unused: the weights of every vote-count estimand are read from it)
+        unused = [c for c in ("results_dem", "results_gop") if c[8:] not in estimands and c in feed.columns]
+        rows_ = [j for j in range(len(feed)) if status.get(feed.loc[j, "geographic_unit_fips"]) in ("full", "partial")]
+        if unused and rows_:
+            c = unused[int(rng.integers(0, len(unused)))]
+            feed[c] = feed[c].astype(float)
+            for j in [rows_[k_] for k_ in rng.permutation(len(rows_))[: int(rng.integers(1, 4))]]:
+                feed.loc[j, c] = float("nan")
+            el.meta["null_in_unused_column"] = c
     # eligibility parameters
     if rng.random() < 0.3:
         ids = list(el.pre.geographic_unit_fips)
@@ -136,9 +148,53 @@ def build(seed, prop, idx, o=None):
         estimands=estimands, prediction_intervals=alphas, percent_reporting_threshold=thr, pi_method=estimator,
         aggregates=aggregates, features=features, fixed_effects=fe, model_parameters=mp, handle_unreporting=policy,
     )
+    if o.get("extra_state_rows", bool(rng.random() < 0.1)) and not el.meta.get("cat_key"):
+        # the baseline FILE holds more states than the config names for this office (a national file, a state-level
+        # race): the client must drop those rows; the reference keeps working on el.pre (the rows of the configured
+        # states), the client is handed el.pre_file
+        k = int(rng.integers(1, 6))
+        extra = el.pre.iloc[rng.permutation(len(el.pre))[:k]].copy()
+        extra["postal_code"] = "QQ"
+        extra["county_fips"] = [f"77{j:03d}" for j in range(len(extra))]
+        extra["geographic_unit_fips"] = [
+            (f"{d}_77{j:03d}_001" if el.district else (f"77{j:03d}" if el.geo_type == "county" else f"77{j:03d}_001"))
+            for j, d in enumerate(extra["district"] if "district" in extra.columns else [None] * len(extra))]
+        parts = [extra, el.pre] if rng.random() < 0.5 else [el.pre, extra]
+        el.pre_file = __import__("pandas").concat(parts).reset_index(drop=True)
+        for c in el.pre.columns:
+            el.pre_file[c] = el.pre_file[c].astype(el.pre[c].dtype)
+        el.meta["extra_state_rows"] = int(len(extra))
+        if o.get("extra_state_in_feed", bool(rng.random() < 0.6)):
+            # ... and the live feed reports those units too (a national feed): for this office they are units without
+            # a baseline, i.e. unexpected units that only pass their counts through
+            import pandas as _pd
+
+            add = []
+            for r_ in extra.to_dict(orient="records"):
+                bt = int(r_["baseline_turnout"])
+                td = int(bt * rng.uniform(0.2, 0.7))
+                add.append(dict(postal_code="QQ", geographic_unit_fips=r_["geographic_unit_fips"],
+                                percent_expected_vote=float(gen.choice(rng, [100, 100, 40, 0])),
+                                results_turnout=bt + int(rng.integers(0, 50)), results_dem=td,
+                                results_gop=max(0, bt - td - int(rng.integers(0, 20)))))
+                status[r_["geographic_unit_fips"]] = "unexpected"
+            addf = _pd.DataFrame(add)
+            for c in feed.columns:
+                if c not in addf.columns:
+                    addf[c] = addf["results_dem"] if c.startswith("results_") else None
+            addf = addf[list(feed.columns)]
+            for c in feed.columns:
+                try:
+                    addf[c] = addf[c].astype(feed[c].dtype)
+                except (TypeError, ValueError):
+                    pass
+            feed = _pd.concat([feed, addf]).reset_index(drop=True)
+            feed = feed.iloc[rng.permutation(len(feed))].reset_index(drop=True)
+            el.meta["extra_state_in_feed"] = True
     if o.get("feed_as_lists", bool(rng.random() < 0.2)):
         call["feed_as_lists"] = True
     if o.get("pre_from_earlier_run", bool(rng.random() < 0.1)) and not el.meta.get("cat_key") \
+            and getattr(el, "pre_file", None) is None \
             and "baseline_pointer" not in el.config[el.election_id][0]:
         # a history: the baseline file is the one an earlier run for OTHER estimands saved (save_output=["data"]); it
         # carries that run's derived columns (weights, last_election_results_*, normalised margin), produced here by
